@@ -378,6 +378,8 @@ def o4(W, ob):
              'varint layout differs: writer constants %s, reader constants %s' % (sorted(consts_w), sorted(consts_r)), where(r))
 
 
+from . import casts
+
 OBLIGATIONS = [
     ('C14.O1', 'totality of decode', 'no open panic-capable site and no unreviewed external callee in the call-graph closure of '
      'compression::decode; every site is discharged by analysis (no review entries): every byte string yields Ok or Err.', o1),
@@ -389,4 +391,5 @@ OBLIGATIONS = [
     ('C14.O4', 'run-length layer: reader table = writer table', 'the header layout bitfield_rle writes (read from the dependency\'s typed MIR: run = len << 2 | 1, '
      '| 2 for runs of 0xFF; literal = len << 1; varint groups of 7 bits) is the one rle_decode reads: same flag bits, same shifts, fill byte 0xFF/0x00 '
      'under the same bit, run appended to the current length.', o4, {'deps': True}),
+    ('C14.C', 'lossy integer casts', 'every sign-changing cast (signed -> unsigned; NULL_FRAME is -1) and every narrowing cast to < 32 bits or from 128 bits in the crate is in range by a dominating guard, by the shape of its operand, or listed with a reason in tables/casts.json; see rules/casts.py', casts.rule),
 ]
